@@ -411,6 +411,18 @@ func genC11(g *Gen, tier string, emit func(op string, args ...string)) {
 			}
 			emit("tp", hx(a), hx(g.pwSecret()), hx(g.ra()))
 		}
+		// ciphertexts whose DECRYPTED length octet is chosen exactly (boundaries of the embedded-length check):
+		// c1[0] = want ^ MD5(secret | authenticator | salt)[0]
+		for k := 1; k <= 15; k++ {
+			for _, want := range []int{16*k - 2, 16*k - 1, 16 * k, 16*k + 1, 255, 0} {
+				sec, ra := g.RandBytes(g.Pick(1, 8)), g.RandBytes(16)
+				a := g.RandBytes(2 + 16*k)
+				a[0] |= 0x80
+				b1 := md5sum(sec, ra, a[:2])
+				a[2] = byte(want) ^ b1[0]
+				emit("tp", hx(a), hx(sec), hx(ra))
+			}
+		}
 		// decoder fed with genuine encodings whose embedded length was made inconsistent
 		for k := 0; k < 40; k++ {
 			sec, ra := g.RandBytes(8), g.RandBytes(16)
